@@ -46,7 +46,7 @@ def check(res):
     c7 = corpora.c07(res.seed, "quick")
     merged["scenarios"] += [s for s in c7["scenarios"] if not s["id"].startswith("c07k")][:12]
     merged["scenarios"] += valid_sizes()
-    genprop.run(res, "C19", PROPFILE, merged, allocs=True, extra=lambda gr, r: alloc_check(res, gr, r))
+    genprop.run(res, "C19", PROPFILE, merged, allocs=True, spec=False, extra=lambda gr, r: alloc_check(res, gr, r))
 
 
 def valid_sizes():
@@ -67,5 +67,5 @@ def valid_sizes():
     return [scenario("c19sizes", [struct("T", fields, cases)])]
 
 
-PROPFILE = None
+PROPFILE = "theories/Properties/C19.v"
 replay = genprop.replay
